@@ -14,12 +14,13 @@ func Build(t Table) qframe.QFrame {
 	enums := map[string][]string{}
 	for _, c := range t.Cols {
 		switch c.Kind {
+		// (the slices have spare capacity, as slices that were filled by append do: it is not the frame's to use)
 		case KInt:
-			data[c.Name] = append([]int(nil), c.I...)
+			data[c.Name] = append(make([]int, 0, 2*len(c.I)+8), c.I...)
 		case KFloat:
-			data[c.Name] = append([]float64(nil), c.F...)
+			data[c.Name] = append(make([]float64, 0, 2*len(c.F)+8), c.F...)
 		case KBool:
-			data[c.Name] = append([]bool(nil), c.B...)
+			data[c.Name] = append(make([]bool, 0, 2*len(c.B)+8), c.B...)
 		case KString:
 			data[c.Name] = copyPtrs(c.S)
 		case KEnum:
